@@ -220,7 +220,7 @@ def gen_sort(ctx, scale, maxlen):
 
 def gen_radix(ctx, scale, narrow):
     """RadixSorter<R> on W-bit codes and on pointers.  narrow=True: only the R > W combinations with more items than the
-    selection-sort threshold (run in a separate stage: see KNOWN key below)"""
+    selection-sort threshold (run in a separate harness invocation)"""
     r = ctx.rng; cases = []
     for R in range(1, 17):
         T = 2 ** (R // 2 + 1)
@@ -264,8 +264,6 @@ def radix_oracle(ctx, c, out):
         if grp.split() != runs: return 'groupFunc calls %s do not match the runs of equal codes %s' % (grp.split()[:5], runs[:5])
     if len(vals) >= 3: ctx.nontrivial.add(c)
     return None
-
-KNOWN_NARROW = 'radixsorter-radix-wider-than-code'
 
 # ---------------------------------------------------------------- oracle (independent of the Coq model)
 def parse_case(c):
@@ -411,19 +409,11 @@ def run(ctx):
     b, sort_out = run_oracle(ctx, harness, sorts, 'oracle-sort'); bad += b
     radix = gen_radix(ctx, scale, False)
     b, _ = run_oracle(ctx, hradix, radix, 'oracle-radix'); bad += b
-    # radix size wider than the code type: separate run (built with -fsanitize=shift), one violation with a stable key
+    # radix size wider than the code type (R > 8*sizeof(Code)): the first shift used to wrap around (fixed in /repo bb23c06);
+    # the harness is built with -fsanitize=shift, so the undefined shift aborts it; separate run so a crash cannot mask other cases
     narrow = gen_radix(ctx, scale, True)
-    nb, _ = run_oracle(ctx, hradix, narrow, 'oracle-radix-narrow')
-    if nb:
-        recorded = ctx.violation('RadixSorter<R> with R > 8*sizeof(Code): ' + nb[0][2],
-                                 {'case': nb[0][0], 'impl_output': nb[0][1][:500], 'harness': 'harness_radix',
-                                  'cmd': 'echo "<case>" | build/C17/harness_radix   (built with -fsanitize=shift)'},
-                                 found_input=True, key=KNOWN_NARROW)      # False when known_findings.txt lists the key
-        ctx.stage('oracle-radix-narrow', not recorded, nb[0][2])
-    else:
-        ctx.stage('oracle-radix-narrow', True)
-    narrow_broken = bool(nb)
-    if any(not st['ok'] for n_, st in ctx.stages.items() if n_ != 'oracle-radix-narrow') or bad:
+    b, _ = run_oracle(ctx, hradix, narrow, 'oracle-radix-narrow'); bad += b
+    if any(not st['ok'] for st in ctx.stages.values()) or bad:
         ctx.log('a stage broke: searching the implementation with the thorough generator')
         extra = gen_small(ctx, 7) if maxlen < 7 else []
         extra += gen_long(ctx, 4) + gen_sort(ctx, 3, 6)
